@@ -52,6 +52,8 @@ func Exec(w []string) (answer string, mine bool) {
 		return evtExec(w), true
 	case "hs":
 		return hsExec(w), true
+	case "hsc":
+		return hscExec(w), true
 	default:
 		return "", false
 	}
@@ -131,6 +133,14 @@ func Gen(r *vh.Rng, tier string, emit func(op, impl, class string, nontrivial bo
 	go func() {
 		defer close(hsDone)
 		hsRes = CollectHs(hsScs, 4, &hsNotes)
+	}()
+	// 0d. the same under non-default configurations x SUPPORTED contents x discovery answers (hscfg.go)
+	hscScs := GenHsc(vh.NewRng(r.U64()), tier)
+	var hscRes, hscNotes []string
+	hscDone := make(chan struct{})
+	go func() {
+		defer close(hscDone)
+		hscRes = CollectHsc(hscScs, 4, &hscNotes)
 	}()
 	// 1. the extracted table, cell by cell
 	emit("dispsites", t.SitesLine(), "disp/sites", true)
@@ -242,6 +252,9 @@ func Gen(r *vh.Rng, tier string, emit func(op, impl, class string, nontrivial bo
 	<-hsDone
 	EmitHs(hsScs, hsRes, emit)
 	Notes = append(Notes, hsNotes...)
+	<-hscDone
+	EmitHsc(hscScs, hscRes, emit)
+	Notes = append(Notes, hscNotes...)
 	sort.Strings(Notes)
 	_ = fmt.Sprint
 }
